@@ -484,6 +484,8 @@ var vpTemplates = []string{
 	// continuation line at a smaller column than the initialiser started at
 	/* 46 */ "local \x01 = 1\nlocal function h(\x02)\n      local \x03 = f(\x01,\n  \x02)\n local \x04 = function(k)\n  return \x02 and \x03(k)\n end\n return \x03, \x04\nend\n",
 	/* 47 */ "local \x01, \x02 = 1, 2\n     local \x03 = t.f(1,\n\x01, function()\n return \x02\nend)\ng = \x03 + \x01\n",
+	// colon methods on receivers reached through two or more member steps: self is the implicit parameter
+	/* 48 */ "\x01 = { ui = { P = {} } }\nfunction \x01.ui.P:show(\x02)\n local s = self\n g = self.k\n return \x02, s\nend\nlocal \x03 = { n = { P = {} } }\nfunction \x03.n.P:m()\n return function() return self end\nend\n",
 }
 
 // vpInstantiate fills the holes of template t with symbolic names; tag prefixes the variable names.
